@@ -234,7 +234,65 @@ def gen_independent(rng, kind=None):
     return {'op': 'gen', 'c': host, 'ctr': rng.randint(0, 3), 'name': kind, 'args': a}
 
 
+def gate_count(fn, n, args_of, **kw):
+    from cirbo.core.circuit import Circuit
+    c = Circuit.bare_circuit(n)
+    res = fn(c, args_of(list(c.inputs)), **kw)
+    return len(c.gates) - n, len(res)
+
+
+def size_search(ctx):
+    """documented gate-count bounds on operand counts far beyond what the value oracle can enumerate (no truth tables
+    here: only sizes). Weighted instances are drawn from level profiles (how many inputs per level), incl. the
+    profile 4,4,3,3,3,... on which every level runs a simplified MDFA and a Stockmeyer block"""
+    from cirbo.synthesis.generation.arithmetics import summation as S
+    rng = ctx.rng('size')
+
+    def weighted(fn, ws, basis):
+        return gate_count(fn, len(ws), lambda ins: [(w, l) for w, l in zip(ws, ins)], basis=basis)
+
+    def judge(name, basis, n, m, g, inp):
+        ctx.case(json.dumps(['size', name, basis, inp]))
+        ctx.count('size:' + name + ':' + basis)
+        if name == 'add_sum_n_weighted_bits_naive':
+            bound = 7 * n - 3 * m if basis == 'AIG' else 5 * n - 2 * m
+        else:
+            bound = 7 * n - 3 * m if basis == 'AIG' else 4.5 * n - 2 * m
+        if g <= bound:
+            return
+        if name == 'add_sum_n_weighted_bits' and basis == 'XAIG' and 2 * g <= 9 * n - 3 * m:
+            # the listed finding: the documented 4.5n - 2m is exceeded, the provable 4.5n - 1.5m is not
+            ctx.violation('sum.size.weighted_xaig_documented_bound',
+                          f'{name}(XAIG): {g} gates for n={n}, m={m}; documented bound {bound}', input=inp)
+        else:
+            ctx.violation('sum.size', f'{name}({basis}): {g} gates for n={n}, m={m}, documented bound {bound}', input=inp)
+
+    profiles = [[4, 4] + [3] * k for k in (9, 10, 12, 20)]
+    for k in range(ctx.scale(40, 400)):
+        L = rng.randint(1, 14)
+        profiles.append([rng.choice([0, 1, 2, 3, 3, 4, 5, 8]) for _ in range(L)])
+    for prof in profiles:
+        ws = [l for l, cnt in enumerate(prof) for _ in range(cnt)]
+        if not ws:
+            continue
+        rng.shuffle(ws)
+        for basis in ('XAIG', 'AIG'):
+            for name, fn in (('add_sum_n_weighted_bits', S.add_sum_n_weighted_bits),
+                             ('add_sum_n_weighted_bits_naive', S.add_sum_n_weighted_bits_naive)):
+                try:
+                    g, m = weighted(fn, ws, basis)
+                except Exception as e:  # noqa: BLE001
+                    ctx.violation('sum.raises', f'{name} raised {err_name(e)} on weights {ws}', input={'weights': ws, 'basis': basis})
+                    continue
+                judge(name, basis, len(ws), m, g, {'weights': ws, 'basis': basis, 'name': name})
+    for n in list(range(1, 70)) + [100, 127, 128, 129, 255, 256, 257, 500]:
+        for basis in ('XAIG', 'AIG'):
+            g, m = gate_count(S.add_sum_n_bits, n, lambda ins: ins, basis=basis)
+            judge('add_sum_n_bits', basis, n, m, g, {'n': n, 'basis': basis, 'name': 'add_sum_n_bits'})
+
+
 def search(ctx):
+    size_search(ctx)
     rng = ctx.rng('search')
     rng2 = ctx.rng('search-independent')
     for k in range(ctx.scale(150, 2500)):
